@@ -96,8 +96,71 @@ def trimArityHandle : List Sexp → Option Sexp
       pure (.list items)
   | _ => none
 
+/-!
+`nest cfg <n> (found limit) (ifound ilimit) <inv>*`      nested wrappers (`PP.TrimArity.Nest`), outer mode `act`
+
+  inv   ::= ((oacc*) (bf bl) ((gf gl)*) (ia_0 … ia_m) <early-exc> <after> (iacc*) (ibeh_0 … ibeh_m))
+  ia_k  ::= <nat> | none            arguments passed to the inner wrapper when the outer body got k
+  after ::= pass | (ret none|<nat>) | (raise <exc>) | cond | condfatal
+  ibeh  ::= as `beh` of `trim`, plus (ret T) = value 1, (ret F) = value 0
+
+Both wrappers keep their state across the `inv`s.  Output per invocation:
+`((outer ev*) ((inner ev*)*) <elem> <top> found limit ifound ilimit)`.
+-/
+
+def ibehOf : Sexp → Option (BodyRes RetVal)
+  | .list [.atom "ret", .atom "T"] => some (.ret (.value 1))
+  | .list [.atom "ret", .atom "F"] => some (.ret (.value 0))
+  | x => behOf x
+
+def afterOf : Sexp → Option (RetVal → RetVal ⊕ Exc)
+  | .atom "pass" => some (fun v => .inl v)
+  | .atom "cond" => some (fun v => if v == .value 0 then .inr .parseExc else .inl .none)
+  | .atom "condfatal" => some (fun v => if v == .value 0 then .inr .parseFatal else .inl .none)
+  | .list [.atom "ret", .atom "none"] => some (fun _ => .inl .none)
+  | .list [.atom "ret", v] => do let k ← v.nat?; pure (fun _ => .inl (.value k))
+  | .list [.atom "raise", .atom e] => do let x ← excOf e; pure (fun _ => .inr x)
+  | _ => none
+
+def optNatOf : Sexp → Option (Option Nat)
+  | .atom "none" => some none
+  | x => x.nat?.map some
+
+def nestOf : Sexp → Option (Nest Unit RetVal RetVal)
+  | .list [.list oacc, bf, .list glue, .list ias, .atom early, after, .list iacc, .list ibehs] => do
+      let oacc ← oacc.mapM Sexp.nat?
+      let iacc ← iacc.mapM Sexp.nat?
+      let ias ← ias.mapM optNatOf
+      let behs ← ibehs.mapM ibehOf
+      let ex ← excOf early
+      pure ⟨fun k => oacc.contains k, (← frameOf bf), (← glue.mapM frameOf), mkCallable iacc behs,
+            fun k => (ias.getD k none), fun _ => ex, (← afterOf after)⟩
+  | _ => none
+
+def nestRun (cfg : Cfg) (n : Nat) : WState → WState → List Sexp → Option (List Sexp)
+  | _, _, [] => some []
+  | st, ist, inv :: rest => do
+      let N ← nestOf inv
+      let r := wrapper cfg (N.toCallable cfg) st (ist, (), []) n
+      let el := actionStep .matched r.out
+      let item := Sexp.list [.list (r.evs.map evSexp), .list (r.cs.2.2.map fun l => .list (l.map evSexp)),
+                             elemSexp el, topSexp (parseStringOut el), ofBool r.st.found, ofNat r.st.limit,
+                             ofBool r.cs.1.found, ofNat r.cs.1.limit]
+      let more ← nestRun cfg n r.st r.cs.1 rest
+      pure (item :: more)
+
+def nestHandle : List Sexp → Option Sexp
+  | .atom "nest" :: .list [sf, sl, cf, cl, ml] :: n :: .list [fd, lim] :: .list [ifd, ilim] :: invs => do
+      let cfg : Cfg := ⟨((← sf.nat?), (← sl.nat?)), ((← cf.nat?), (← cl.nat?)), (← ml.nat?)⟩
+      let items ← nestRun cfg (← n.nat?) ⟨(← fd.bool?), (← lim.nat?)⟩ ⟨(← ifd.bool?), (← ilim.nat?)⟩ invs
+      pure (.list items)
+  | _ => none
+
 end PP.Driver.TrimArityD
 
 namespace PP.Driver
-def trimArityHandle := TrimArityD.trimArityHandle
+def trimArityHandle (xs : List Sexp) : Option Sexp :=
+  match TrimArityD.trimArityHandle xs with
+  | some r => some r
+  | none => TrimArityD.nestHandle xs
 end PP.Driver
